@@ -450,6 +450,18 @@ def run_job(job, rec):
         rec.check(isinstance(v, Raised), "start-validation", f"{kind}: a start point outside the bounds was accepted", ctx)
 
         n_steps = 60 if kind == "pca" else 12 if kind.startswith("hmc") else 15
+        if kind == "pca":
+            # PcaChain inherits the Gibbs limit setters but only warns when they are used: the bounds given at construction stay in force
+            import warnings
+
+            with warnings.catch_warnings():
+                warnings.simplefilter("ignore")
+                r1 = guarded(ch.set_boundaries, 0, (float(lo[0] - 5 * w[0]), float(hi[0] + 5 * w[0])))
+                r2 = guarded(ch.set_non_negative, 0, True)
+                r3 = guarded(ch.set_boundaries, 0, None, remove=True)
+            rec.count("limit_ops:pca_unavailable_setters")
+            if any(isinstance(v, Raised) for v in (r1, r2, r3)):
+                rec.violation("raised", f"pca: the unavailable limit setters raised {r1!r} / {r2!r} / {r3!r}", ctx)
         for phase in range(2):
             if kind == "ensemble":
                 r = guarded(ch.advance, n_steps)
